@@ -280,6 +280,21 @@ def sshsig_cert_type(sshsig: Any, consts: Dict[str, int]) -> int:
     return found[0]
 
 
+def signers_split_newline_only(sshsig: Any) -> bool:
+    """`SSHAllowedSigners.load` iterates over `allowed_signers.split('\\n')` (repair of F146; before:
+    `.splitlines()`, which also ends a line at VT, FF, FS, GS, RS, NEL, LS, PS and a lone CR)"""
+    fn = _func_ast(sshsig.SSHAllowedSigners.load)
+    loops = [n for n in ast.walk(fn) if isinstance(n, ast.For)]
+    if len(loops) != 1:
+        raise TranslateError(f'SSHAllowedSigners.load: expected one loop, found {len(loops)}')
+    it = ast.unparse(loops[0].iter)
+    if it == "allowed_signers.split('\\n')":
+        return True
+    if it == 'allowed_signers.splitlines()':
+        return False
+    raise TranslateError('SSHAllowedSigners.load: line iteration not understood: ' + it)
+
+
 def signer_opt_mode(misc: Any, sshsig: Any) -> Dict[str, Any]:
     """How OptionsParser._add_option treats names, probed on the live class with the allowed-signers handlers
     replaced by recorders (so that no pattern/time parsing is involved)."""
@@ -433,6 +448,8 @@ def translate(ctx: Any) -> Dict[str, Any]:
     misc = importlib.import_module('asyncssh.misc')
     sig_ctype = sshsig_cert_type(sshsig, consts)
     info['sshsig_cert_type'] = sig_ctype
+    split_nl = signers_split_newline_only(sshsig)
+    info['signers_split_newline_only'] = split_nl
     mode = signer_opt_mode(misc, sshsig)
     info['signer_opt_mode'] = mode
 
@@ -478,6 +495,9 @@ def translate(ctx: Any) -> Dict[str, Any]:
     out.append('')
     out.append('/-- the certificate type `validate_sshsig` passes to `cert.validate` (0 = ANY, 1 = USER, 2 = HOST) -/')
     out.append(f'def sshsigCertType : Nat := {sig_ctype}')
+    out.append('')
+    out.append("/-- `SSHAllowedSigners.load` splits its input with `split('\\n')` (not `splitlines()`) -/")
+    out.append(f'def signersSplitNewlineOnly : Bool := {"true" if split_nl else "false"}')
     out.append('')
     out.append('/-- `OptionsParser._add_option` as probed on the live class, with the allowed-signers handler names -/')
     b = lambda x: 'true' if x else 'false'
